@@ -39,6 +39,6 @@ s = open(p).read()
 begin, end = "<!-- SEEDED TABLE BEGIN -->", "<!-- SEEDED TABLE END -->"
 if "SEEDED_TABLE_PLACEHOLDER" in s:
     s = s.replace("SEEDED_TABLE_PLACEHOLDER", begin + "\n" + end)
-s = re.sub(re.escape(begin) + ".*?" + re.escape(end), begin + "\n" + table + end, s, flags=re.S)
+s = re.sub(re.escape(begin) + ".*?" + re.escape(end), lambda m: begin + "\n" + table + end, s, flags=re.S)
 open(p, "w").write(s)
 print(table)
